@@ -382,7 +382,9 @@ func init() {
 		CapSpell = (idx / 7) % 6
 		capSpellN = idx
 		AutoMutex = false
+		LeftErrStart = false
 		if !m.Race {
+			LeftErrStart = (idx/11)%8 == 3
 			// (C10 and C11 run several goroutines against one structure and bring their own lock monitors)
 			AutoMutex = (idx/5)%4 == 0
 			for k := range lockWatchHeld {
@@ -833,6 +835,14 @@ func Spice(r *core.Rng, root *TNode, wide, long, share bool) (did string) {
 		n := r.Range(13, 60)
 		if r.Chance(1, 12) && !SpiceNoHuge {
 			n = r.Range(900, 1400) // well beyond any pre-sized or chunked regime
+			switch r.Intn(10) {
+			case 0, 1, 2:
+				n = r.Range(4090, 4200) // around 2^12
+			case 3:
+				n = r.Range(65530, 65600) // around 2^16
+			case 4:
+				n = r.Range(250, 262) // around 2^8
+			}
 		}
 		for i := 0; i < n; i++ {
 			w.Kids = append(w.Kids, &TNode{T: "leaf", Leaf: &LeafDesc{Tag: "int", I: int64(5000 + i)}})
@@ -856,6 +866,9 @@ func Spice(r *core.Rng, root *TNode, wide, long, share bool) (did string) {
 		n := r.Range(40, 200)
 		if r.Chance(1, 8) {
 			n = r.Range(4000, 9000) // several kilobytes
+			if r.Chance(1, 5) {
+				n = r.Range(65500, 70000) // beyond 2^16 bytes
+			}
 		}
 		b := make([]byte, n)
 		for i := range b {
